@@ -4,7 +4,7 @@
    matplotlib, colours, axes and file output are not modelled. *)
 From Coq Require Import QArith List Arith.
 Import ListNotations.
-From SedV Require Import PlotM.
+From SedV Require Import PlotM PlotProofs.
 
 (* number of curves = selected fits x curves per fit of the display mode *)
 Theorem C17_count : forall m nu n, length (curve_list m nu n) = (n * ncurves_m m nu)%nat.
@@ -22,6 +22,23 @@ Theorem C17_through : forall lg pw : Q -> Q,
   forall f D d K av k, 0 < f -> 0 < D -> 0 < d -> 0 < K ->
   lg (curve_val pw f D d K av k) == (lg (f * ((1 / d) * (1 / d))) + av * k) + (lg (D / K) + lg (D / K)).
 Proof. exact curve_through_prediction. Qed.
+
+(* exactly the curves (fit i, curve j) with i < n_fits and j < curves-per-fit are drawn: none missing, none foreign *)
+Theorem C17_members : forall m nu n i j, In (i, j) (curve_list m nu n) <-> (i < n /\ j < ncurves_m m nu)%nat.
+Proof. exact curve_list_in. Qed.
+
+(* no curve is drawn twice *)
+Theorem C17_no_duplicate : forall m nu n, NoDup (curve_list m nu n).
+Proof. exact curve_list_nodup. Qed.
+
+(* fits are drawn worst first: the fit index never increases along the list of curves *)
+Theorem C17_worst_first : forall m nu n, nonincr (map fst (curve_list m nu n)).
+Proof. exact curve_list_worst_first. Qed.
+
+(* the very last curve drawn belongs to the best fit (and is its last aperture curve) *)
+Theorem C17_best_on_top : forall m nu n i j, (0 < n)%nat -> (0 < ncurves_m m nu)%nat ->
+  last (curve_list m nu n) (i, j) = (0, ncurves_m m nu - 1)%nat.
+Proof. exact curve_list_best_on_top. Qed.
 
 Example C17_example : curve_list LargestSmallest 3 2 = [(1, 0); (1, 1); (0, 0); (0, 1)]%nat /\ ncurves_m AllAp 3 = 3%nat.
 Proof. split; reflexivity. Qed.
